@@ -213,10 +213,12 @@ def run_case(case):
         for seat in seats:
             if W.sampler(seat) is None: continue
             for occ in S.all_occ(seat):
+                if len(mon.viol) >= 25: break  # the report is full
                 explore(mon, W, seat, occ, rng, 10 ** 6, p_update)
                 mon.count('occupations_exhausted')
     else:
         for t in range(12):
+            if len(mon.viol) >= 25: break
             seat = int(rng.choice(S.chemsites)) if vacancy else None
             if W.sampler(seat) is None: continue
             occ = S.rand_occ(rng, seat, fill=float(rng.choice([0.1, 0.3, 0.5, 0.5, 0.7, 0.9])))
